@@ -149,6 +149,9 @@ def doLoads (cfg : Cfg) (fs : FS) (rec : ParseFn) (stack : List APath) (file spe
           match registerAll st.reg (extRegs (showPath p) defs) with
           | .error s => .error (.raised "TypeResolvingException" s.file s.pos)
           | .ok reg => doLoads cfg fs rec stack file spelled ls res { st with reg := reg }
+        | some (.notText pos) =>
+          doLoads cfg fs rec stack file spelled ls
+            { res with errors := res.errors ++ [{ cls := "InputParsingException", rule := "extern-not-utf8", file := showPath p, pos := pos }] } st
         | _ =>
           doLoads cfg fs rec stack file spelled ls
             { res with errors := res.errors ++ [{ cls := "InputParsingException", rule := "bad-extern", file := showPath p, pos := default }] } st
